@@ -918,21 +918,18 @@ impl Ty {
                 Some(Ty::Float(*first_bit_width.max(second_bit_width)))
             }
             // distincts
-            (non_distinct, Ty::Distinct { .. }) => {
+            // the distinct is only the common type if the other side can actually become it
+            (non_distinct, Ty::Distinct { .. })
+                if other.has_semantics_of(self) && self.can_fit_into(other) =>
+            {
                 assert_eq!(self, non_distinct);
-                if other.has_semantics_of(self) {
-                    Some(other.clone())
-                } else {
-                    None
-                }
+                Some(other.clone())
             }
-            (Ty::Distinct { .. }, non_distinct) => {
+            (Ty::Distinct { .. }, non_distinct)
+                if self.has_semantics_of(non_distinct) && other.can_fit_into(self) =>
+            {
                 assert_eq!(other, non_distinct);
-                if self.has_semantics_of(non_distinct) {
-                    Some(self.clone())
-                } else {
-                    None
-                }
+                Some(self.clone())
             }
             // enums
             (
